@@ -20,6 +20,7 @@ from more_itertools import (
 from predicate.any_predicate import AnyPredicate
 from predicate.dict_of_predicate import DictOfPredicate
 from predicate.generator.helpers import (
+    all_hashable,
     generate_anys,
     generate_ints,
     generate_strings,
@@ -86,7 +87,8 @@ def generate_all_p(all_predicate: AllPredicate) -> Iterator:
         values = take(max_length, generate_true(predicate))
         if not values:
             return
-        yield set(random_combination_with_replacement(values, max_length))
+        if all_hashable(values):
+            yield set(random_combination_with_replacement(values, max_length))
 
         values = take(max_length, generate_true(predicate))
         if not values:
@@ -286,7 +288,8 @@ def generate_any_p(any_predicate: AnyPredicate) -> Iterator:
 
     yield random_combination_with_replacement(values, 5)
 
-    yield set(random_combination_with_replacement(values, 5))
+    if all_hashable(values):
+        yield set(random_combination_with_replacement(values, 5))
 
 
 @generate_true.register
@@ -319,5 +322,5 @@ def generate_set_of_p(
         values = take(length, generate_true(predicate))
 
         # set sizes can be smaller than required, because of duplicates
-        if len(result := set(values)) == length:
+        if all_hashable(values) and len(result := set(values)) == length:
             yield result if order else random_permutation(result)
